@@ -320,8 +320,89 @@ pub fn deep(ctx: &mut Ctx) {
     }
 }
 
+/// a ladder of large, structured trees (9..40 points, nesting up to 6): not exhaustive in the large, but
+/// every index, every sub-point as a pattern, and every instruction on each of them
+fn big_trees() -> Vec<Tree> {
+    let a = |k: i32| Tree::I(k);
+    let l = |v: Vec<Tree>| Tree::L(v);
+    let mut out = vec![];
+    // chains and combs
+    let mut chain = a(1);
+    for _ in 0..8 {
+        chain = l(vec![chain]);
+    }
+    out.push(chain);
+    let mut comb = l(vec![a(9)]);
+    for k in (1..9).rev() {
+        comb = l(vec![a(k), comb]);
+    }
+    out.push(comb);
+    let mut lcomb = l(vec![a(9)]);
+    for k in (1..9).rev() {
+        lcomb = l(vec![lcomb, a(k)]);
+    }
+    out.push(lcomb);
+    // wide and flat
+    out.push(l((1..=12).map(a).collect()));
+    out.push(l((1..=33).map(|k| if k % 4 == 0 { l(vec![a(k)]) } else { a(k) }).collect()));
+    // nested lists first, atoms after; repeated subtrees; empty lists inside
+    out.push(l(vec![l(vec![a(1), l(vec![a(2), a(3)])]), l(vec![l(vec![]), a(4)]), a(5), l(vec![a(2), a(3)]), a(1), a(11)]));
+    out.push(l(vec![l(vec![l(vec![l(vec![a(1), a(2)]), a(3)]), a(4)]), l(vec![a(1), a(2)]), l(vec![l(vec![a(1), a(2)]), a(3)]), Tree::name("A"), Tree::F(1.5)]));
+    out.push(l(vec![a(1), l(vec![a(1), l(vec![a(1), l(vec![a(1), l(vec![a(1), l(vec![a(1)])])])])]), a(1)]));
+    out.push(l(vec![l(vec![]), l(vec![l(vec![])]), l(vec![l(vec![l(vec![])])]), l(vec![]), a(7), l(vec![])]));
+    // a balanced tree of depth 4
+    let leaf = |k: i32| l(vec![a(k), a(k + 1)]);
+    out.push(l(vec![l(vec![leaf(1), leaf(3)]), l(vec![leaf(5), leaf(7)]), l(vec![leaf(1), leaf(3)])]));
+    // 33 elements with two-level sublists, a 20-deep nest, 101 equal atoms
+    out.extend(crate::alpha::Alpha::large().codes);
+    out
+}
+
+pub fn big(ctx: &mut Ctx) {
+    let mut real = Real::new();
+    let trees = big_trees();
+    for t in &trees {
+        let n = t.points();
+        let mut m0 = M::default();
+        m0.c = vec![t.clone(), Tree::I(77)];
+        for name in ["CODE.SIZE", "CODE.CAR", "CODE.CDR", "CODE.LENGTH", "CODE.NULL", "CODE.ATOM"] {
+            run_step(ctx, &mut real, name, &m0, none);
+        }
+        let mut idxs: Vec<i32> = (-(n as i32) - 2..=2 * n as i32 + 1).collect();
+        idxs.extend([i32::MIN, i32::MAX]);
+        for i in idxs {
+            let mut m1 = m0.clone();
+            m1.i = vec![i];
+            run_step(ctx, &mut real, "CODE.EXTRACT", &m1, none);
+            run_step(ctx, &mut real, "CODE.NTH", &m1, none);
+            let mut m2 = M::default();
+            m2.c = vec![t.clone(), Tree::L(vec![Tree::I(99)])];
+            m2.i = vec![i];
+            run_step(ctx, &mut real, "CODE.INSERT", &m2, none);
+        }
+        // every sub-point as the searched / contained / substituted item, plus one that does not occur
+        let mut pats: Vec<Tree> = (0..n).filter_map(|k| nth_point(t, k)).collect();
+        pats.push(Tree::L(vec![Tree::I(-5)]));
+        let mut seen = std::collections::HashSet::new();
+        pats.retain(|p| seen.insert(p.key()));
+        for u in &pats {
+            let mut m1 = M::default();
+            m1.c = vec![t.clone(), u.clone()];
+            for name in ["CODE.POSITION", "CODE.CONTAINER", "CODE.CONTAINS", "CODE.MEMBER", "CODE.=", "CODE.DISCREPANCY", "CODE.CONS", "CODE.LIST"] {
+                run_step(ctx, &mut real, name, &m1, |m0, out, _| atoms_conserved(name, m0, out));
+            }
+            for sub in [Tree::I(0), Tree::L(vec![Tree::I(0), Tree::L(vec![])])] {
+                let mut m2 = M::default();
+                m2.c = vec![t.clone(), sub, u.clone()];
+                run_step(ctx, &mut real, "CODE.SUBST", &m2, none);
+            }
+        }
+    }
+}
+
 pub fn run(ctx: &mut Ctx) {
     match ctx.family.as_str() {
+        "big" => big(ctx),
         "deep" => deep(ctx),
         "unary" => unary(ctx),
         "binary" => binary(ctx),
